@@ -123,6 +123,10 @@ fn probe(a: &[String]) {
   let t0 = Instant::now();
   let rd = |p: &str| std::fs::read_to_string(p).expect("read");
   match a[0].as_str() {
+    "c17gen" => {
+      vh::props::c17::probe_gen(&a[1]);
+      return;
+    }
     "parse" => {
       let t = rd(&a[1]);
       match cddl::cddl_from_str(&t, false) {
